@@ -5,6 +5,7 @@ CONSTANTS
   NKeys = 3
   NMembers = 2
   NVals = 2
+  RmVia = TRUE
   MaxOps = 1000
   Regime = "any"
   UseMerge = TRUE
